@@ -39,18 +39,20 @@ func init() {
 	// child side: a token sequence offered to the low-level parser API, every variant
 	childExtras["toks"] = func(data []byte) string {
 		toks := decodeToks(data)
-		for _, v := range []string{"parse", "parsectx", "strict", "recovery"} {
+		for _, v := range tokVariants {
 			if ans := runToks(v, toks); strings.HasPrefix(ans, "panic") {
 				return v + ":" + ans
 			}
 		}
 		return "ok"
 	}
-	for _, v := range []string{"parse", "parsectx", "strict", "recovery"} {
+	for _, v := range tokVariants {
 		v := v
 		childExtras["toks."+v] = func(data []byte) string { return runToks(v, decodeToks(data)) }
 	}
 }
+
+var tokVariants = []string{"parse", "parsectx", "strict", "recovery", "positions", "positions-strict", "positions-empty-map", "model", "model-positions", "model-ctx"}
 
 func runToks(variant string, toks []token.Token) (ans string) {
 	defer func() {
@@ -74,6 +76,41 @@ func runToks(variant string, toks []token.Token) (ans string) {
 		p := parser.NewParser(parser.WithStrictMode())
 		defer p.Release()
 		_, err := p.Parse(cp)
+		return errCode(err)
+	case "positions", "positions-strict", "positions-empty-map", "model", "model-positions", "model-ctx":
+		// the position-tracking and model-token entry points: mappings that are nil, empty (non-nil), shorter than the
+		// tokens, or exact
+		opts := []parser.ParserOption{}
+		if variant == "positions-strict" {
+			opts = append(opts, parser.WithStrictMode())
+		}
+		p := parser.NewParser(opts...)
+		defer p.Release()
+		switch variant {
+		case "positions", "positions-strict":
+			pm := make([]parser.TokenPosition, len(cp))
+			_, err := p.ParseWithPositions(&parser.ConversionResult{Tokens: cp, PositionMapping: pm})
+			return errCode(err)
+		case "positions-empty-map":
+			_, err := p.ParseWithPositions(&parser.ConversionResult{Tokens: cp, PositionMapping: []parser.TokenPosition{}})
+			return errCode(err)
+		}
+		mt := make([]models.TokenWithSpan, 0, len(cp))
+		for _, t := range cp {
+			mt = append(mt, models.TokenWithSpan{Token: models.Token{Type: t.Type, Value: t.Literal}})
+		}
+		if len(cp) == 0 && variant == "model" {
+			mt = nil
+		}
+		var err error
+		switch variant {
+		case "model":
+			_, err = p.ParseFromModelTokens(mt)
+		case "model-positions":
+			_, err = p.ParseFromModelTokensWithPositions(mt)
+		default:
+			_, err = p.ParseContextFromModelTokens(context.Background(), mt)
+		}
 		return errCode(err)
 	default:
 		p := parser.NewParser()
@@ -195,6 +232,16 @@ func runC01(c *runCtx) {
 	}
 	for _, s := range lexicalGarbage {
 		run("garbage", []byte(s), 20*time.Second)
+	}
+	// a literal that ends in an unfinished escape or quote, at every alignment of the text in its allocation (the
+	// child hands the entry points slices whose capacity is exactly their length)
+	for _, tail := range []string{"'\\u41'", "'\\u4", "'\\u", "'\\x4'", "'\\x", "'\\U0001F60", "'\\0", "'\\", "'a\\", "\"\\u12\"", "$$a", "$t$ x $t", "E'\\u00'", "'\\N{", "X'4", "'\\u{1F600", "`a\\"} {
+		for pad := 0; pad < 64; pad++ {
+			if c.quick && pad%4 != 0 && pad > 20 {
+				continue
+			}
+			run("escape-at-end", []byte(strings.Repeat(" ", pad)+"SELECT "+tail), 20*time.Second)
+		}
 	}
 	for _, s := range []string{"SELECT INTERVAL 3", "SELECT INTERVAL", "SELECT CASE", "SELECT CAST(", "SELECT a FROM t WHERE", "WITH", "WITH x AS", "INSERT INTO", "MERGE INTO t USING",
 		"SELECT * FROM t ORDER BY", "SELECT a FROM t GROUP BY GROUPING SETS (", "SELECT a OVER (", "CREATE TABLE t (", "ALTER TABLE t", "SELECT ARRAY[", "SELECT a[", "SELECT a::", "SELECT EXTRACT(",
@@ -334,7 +381,7 @@ func runC01(c *runCtx) {
 		}
 		wit := map[string]any{"kind": kind, "tokens": clip(strings.Join(lits, " "), 600), "count": len(ts)}
 		if ans == "crash" || ans == "hang" {
-			for _, v := range []string{"parse", "parsectx", "strict", "recovery"} {
+			for _, v := range tokVariants {
 				a := pool.Run("x:toks."+v, data, 20*time.Second)
 				if a == "crash" || a == "hang" || strings.HasPrefix(a, "panic") {
 					res.fail(strings.Fields(a)[0]+":tokens-"+v+":"+kind, "the low-level parser does not return on this token sequence", wit, map[string]any{"variant": v, "outcome": a})
